@@ -30,6 +30,7 @@ struct St {
     frames: u64,
     int_window_points: u64,
     once_runs: u64,
+    szx_positions: u64,
     sample: Vec<J>,
 }
 
@@ -76,8 +77,26 @@ fn conservation(ctx: &Ctx, rng: &mut Rng, is128: bool, st: &mut St, case: u64) {
     rf.iff1 = rng.bool();
     rf.iff2 = rf.iff1;
     m.set_regs(&rf);
-    let clock0 = fr - 1 - rng.below(120) as usize;
-    m.set_clock(clock0);
+    let mut clock0 = fr - 1 - rng.below(120) as usize;
+    if rng.chance(1, 5) {
+        // the frame position comes from an SZX snapshot (dwCyclesStart) loaded into the machine
+        // while it sits somewhere else in its frame: the frame in progress must still end FRAME T
+        // after its start and the T-states up to there must not be lost
+        let c = crate::spec_snap::capture(&mut m);
+        let a = crate::spec_snap::Abs { is128, r: c.r, ei_last: false, border: c.border, latch: c.latch & 0x1F, pages: c.pages, ay: None, mouse: None, keyb: None, cycles: clock0 as u32, fe_hi: 0 };
+        m.set_clock(rng.below(fr as u64) as usize);
+        let bytes = crate::spec_snap::write_szx(&a, &crate::spec_snap::SzxOpts::plain(), rng);
+        if !matches!(crate::spec_snap::load_szx(&mut m, &bytes), Ok(Ok(()))) {
+            return; // loaders are judged by C14/C15
+        }
+        st.szx_positions += 1;
+        clock0 = m.clock();
+        if is128 {
+            md.bank = m.emu.verif_paging().0 & 7;
+        }
+    } else {
+        m.set_clock(clock0);
+    }
     let mut expected_total: u64 = 0;
     let mut wraps: u64 = 0;
     let mut prev_clock = clock0;
@@ -435,6 +454,7 @@ pub fn run(ctx: &Ctx) -> Evidence {
         ev.add_num("frames_emulated", r.frames);
         ev.add_num("int_window_points", r.int_window_points);
         ev.add_num("once_per_frame_runs", r.once_runs);
+        ev.add_num("conservation_cases_positioned_by_szx_load", r.szx_positions);
         over.extend(r.overruns);
         for s in r.sample {
             ev.sample(s);
